@@ -290,5 +290,9 @@ SUBCHECKS = [
 ]
 
 
+# coverage-guided campaigns of the thorough tier (pv/fuzz.py): (sub-check, libFuzzer runs per shard)
+FUZZ = [("random-L0", 30000)]
+
+
 def subcheck(name):
     return {s.name: s for s in SUBCHECKS}[name]
